@@ -36,7 +36,7 @@ pub fn active_for(profile: &str) -> Vec<&'static str> {
         "C06" => vec!["C06"],
         "C07" => vec!["C07"],
         "C08" => vec!["C08"],
-        "C09" => vec!["C09", "C01", "C02", "C07", "C13", "C20"],
+        "C09" => vec!["C09", "C01", "C02", "C07", "C13", "C15", "C20"],
         "C10" => vec!["C10"],
         "C11" => vec!["C11", "C10"],
         "C13" => vec!["C13"],
@@ -94,6 +94,14 @@ impl Driver {
     }
 
     fn relabel_c09(&self, mut v: Violation) -> Violation {
+        // C11 profile: admission through the heartbeat is the observation point of the header
+        // rules; a mismatch between admitted blocks/headers and the model's header verdicts is
+        // a C11 violation.
+        if self.profile == "C11" && v.property == "C10" {
+            v.kind = format!("header-admission:{}", v.kind);
+            v.property = "C11".into();
+            return v;
+        }
         // In the C09 profile the other oracles are on only to observe the evolution after
         // upgrades; attribution to C09 is decided by the twin without upgrades (see `finish`).
         if self.profile == "C09" && v.property != "C09" {
@@ -141,7 +149,7 @@ impl Driver {
         };
         // C09 (a): snapshot immediately before an upgrade
         let before_upgrade = if matches!(ev, Event::Upgrade { .. }) && self.w.is_active("C09") {
-            Some(self.upgrade_snapshot().map_err(|t| fix(violation("C09", "snapshot-trap", t.0)))?)
+            Some(self.upgrade_snapshot().map_err(fix)?)
         } else {
             None
         };
@@ -158,7 +166,7 @@ impl Driver {
         if let Event::Upgrade { arg } = ev {
             self.upgrades_seen += 1;
             if let Some((d, fees)) = before_upgrade {
-                let (d2, fees2) = self.upgrade_snapshot().map_err(|t| fix(violation("C09", "snapshot-trap", t.0)))?;
+                let (d2, fees2) = self.upgrade_snapshot().map_err(fix)?;
                 self.w.stats.oracle_comparisons += 1;
                 if arg.is_none() && d != d2 {
                     let diff = d.diff(&d2, &["utxos_length"]);
@@ -199,7 +207,7 @@ impl Driver {
             self.w.check_bookkeeping().map_err(|mut v| {
                 v.kind = format!("state-after-reply:{}", v.kind);
                 v.property = "C10".into();
-                fix(v)
+                fix(self.relabel_c09(v))
             })?;
         }
         if self.w.is_active("C15") {
@@ -220,12 +228,13 @@ impl Driver {
         Ok(true)
     }
 
-    fn upgrade_snapshot(&mut self) -> Result<(Snapshot, Vec<u64>), canister::Trap> {
-        let d = snapshot(&mut self.w)?;
-        let fees = if self.w.data_gate_open() {
-            canister::get_fee_percentiles(self.w.network)?
-        } else {
-            vec![]
+    fn upgrade_snapshot(&mut self) -> Result<(Snapshot, Vec<u64>), Violation> {
+        let d = snapshot(&mut self.w).map_err(|t| violation("C09", "snapshot-trap", t.0))?;
+        // the request goes through the client model (in lazy mode every request is an observation)
+        let fees = match self.w.fee_request_values() {
+            Ok(Some(v)) => v,
+            Ok(None) => vec![],
+            Err(v) => return Err(self.relabel_c09(v)),
         };
         Ok((d, fees))
     }
